@@ -105,13 +105,22 @@ type Thing struct {
 	Keeper   *Keeper
 }
 
+// Memo has one hook, declared on the value receiver (gorm offers the struct
+// value to the hook interfaces before the pointer).
+type Memo struct {
+	ID   uint `gorm:"primarykey"`
+	Text string
+}
+
+func (m Memo) BeforeSave(tx *gorm.DB) error { return call("BeforeSave", "Memo", &m, tx) }
+
 // AllModels lists every model (migration order).
 func AllModels() []interface{} {
-	return []interface{}{&Company{}, &Language{}, &User{}, &Account{}, &Pet{}, &Toy{}, &Note{}, &KV{}, &Marker{}, &Gadget{}, &Keeper{}, &Thing{}}
+	return []interface{}{&Company{}, &Language{}, &User{}, &Account{}, &Pet{}, &Toy{}, &Note{}, &KV{}, &Marker{}, &Gadget{}, &Keeper{}, &Thing{}, &Memo{}}
 }
 
 // Tables lists every table, join tables included (dump order).
-var Tables = []string{"companies", "languages", "users", "accounts", "pets", "toys", "user_languages", "user_friends", "notes", "kvs", "markers", "gadgets", "keepers", "things"}
+var Tables = []string{"companies", "languages", "users", "accounts", "pets", "toys", "user_languages", "user_friends", "notes", "kvs", "markers", "gadgets", "keepers", "things", "memos"}
 
 // ---------------------------------------------------------------- hooks
 
@@ -141,9 +150,10 @@ func call(hook, model string, rec interface{}, tx *gorm.DB) error {
 // present (User, Pet and Note define all of them).
 var NoHook = map[string]map[string]bool{
 	"Toy":      {"BeforeSave": true, "AfterSave": true},
-	"Language": {"BeforeCreate": true, "AfterCreate": true, "BeforeUpdate": true, "AfterUpdate": true},
+	"Language": {"BeforeCreate": true, "AfterCreate": true, "BeforeUpdate": true, "AfterUpdate": true, "BeforeDelete": true, "AfterDelete": true}, // save hooks (and AfterFind) only
 	"Account":  {"AfterCreate": true, "AfterUpdate": true, "AfterSave": true},
 	"Company":  {"BeforeSave": true, "BeforeCreate": true, "BeforeUpdate": true},
+	"Memo":     {"BeforeCreate": true, "AfterCreate": true, "BeforeUpdate": true, "AfterUpdate": true, "AfterSave": true, "BeforeDelete": true, "AfterDelete": true},
 }
 
 // HookPattern removes from a comma separated hook sequence the hooks model does not define.
@@ -199,11 +209,9 @@ func (m *Toy) BeforeDelete(tx *gorm.DB) error { return call("BeforeDelete", "Toy
 func (m *Toy) AfterDelete(tx *gorm.DB) error  { return call("AfterDelete", "Toy", m, tx) }
 func (m *Toy) AfterFind(tx *gorm.DB) error    { return call("AfterFind", "Toy", m, tx) }
 
-func (m *Language) BeforeSave(tx *gorm.DB) error   { return call("BeforeSave", "Language", m, tx) }
-func (m *Language) AfterSave(tx *gorm.DB) error    { return call("AfterSave", "Language", m, tx) }
-func (m *Language) BeforeDelete(tx *gorm.DB) error { return call("BeforeDelete", "Language", m, tx) }
-func (m *Language) AfterDelete(tx *gorm.DB) error  { return call("AfterDelete", "Language", m, tx) }
-func (m *Language) AfterFind(tx *gorm.DB) error    { return call("AfterFind", "Language", m, tx) }
+func (m *Language) BeforeSave(tx *gorm.DB) error { return call("BeforeSave", "Language", m, tx) }
+func (m *Language) AfterSave(tx *gorm.DB) error  { return call("AfterSave", "Language", m, tx) }
+func (m *Language) AfterFind(tx *gorm.DB) error  { return call("AfterFind", "Language", m, tx) }
 
 func (m *Note) BeforeSave(tx *gorm.DB) error   { return call("BeforeSave", "Note", m, tx) }
 func (m *Note) BeforeCreate(tx *gorm.DB) error { return call("BeforeCreate", "Note", m, tx) }
